@@ -1,4 +1,52 @@
-import EpsModel.Header
+/-
+  C02 — ε-copy round trip equals the original and agrees with full copy.
+-/
+import EpsModel.Lemmas.TopLevel
 namespace Eps.C02
-theorem placeholder : (1 : Nat) = 1 := rfl
+open Eps
+
+/-- Body level: wherever the value was serialized, if the buffer is placed so that every
+    zero-copy block is on a multiple of its unit, the ε-copy reader returns a result that describes
+    exactly the value written (`erase` forgets only where the data lives), leaves the rest of the
+    buffer alone, consumes exactly the bytes written, and borrows only at blocks of the writer. -/
+theorem decEps_enc (base : Nat) (T : Ty) (v : Val) (hT : T.wf = true) (hv : T.wt v = true)
+    (pos : Nat) (rest : B) (ha : AlignedAll (.slice base) (T.blocks v pos)) :
+    ∃ e, T.decEps base (T.enc v pos ++ rest) pos = .ok (e, rest, pos + (T.enc v pos).length)
+      ∧ e.erase = v ∧ ∀ b ∈ e.borrows, b.toBlock ∈ T.blocks v pos :=
+  Ty.framedEps base T hT v hv pos rest ha
+
+/-- A base address that is a multiple of the unit of every block aligns every block (blocks start
+    at multiples of their units in the stream, `C07.blocks_aligned`) — in particular any multiple of
+    the largest unit, units being powers of two (`C07.unit_pow2`). -/
+theorem aligned_of_base_multiple (base : Nat) (T : Ty) (hT : T.wf = true) (v : Val) (pos : Nat)
+    (hb : ∀ b ∈ T.blocks v pos, base % b.unit = 0) : AlignedAll (.slice base) (T.blocks v pos) :=
+  aligned_of_base base T hT v pos hb
+
+/-- `deserialize_eps(serialize(v))` from a suitably aligned buffer: a result describing `v`, all
+    bytes consumed — every well-formed type, value, name, digest function. -/
+theorem deEps_ser (H : B → Nat) (hH : ∀ b, H b < 2^64) (T : Ty) (name : B) (v : Val) (base : Nat)
+    (hT : T.wf = true) (hv : T.wt v = true) (hname : validUtf8 name = true) (hlen : name.length < 2^63)
+    (hb : ∀ b ∈ T.blocks v (T.header H name).length, base % b.unit = 0) :
+    ∃ e, T.deEps H base (T.ser H name v) = .ok (e, (T.ser H name v).length) ∧ e.erase = v := by
+  obtain ⟨e, he, her, _⟩ := Ty.deEps_ser_append H hH T name v base [] hT hv hname hlen (aligned_of_base base T hT v _ hb)
+  simp only [List.append_nil] at he
+  exact ⟨e, he, her⟩
+
+/-- On the serialized stream both modes describe the same value and consume the same bytes. -/
+theorem eps_full_agree_on_ser (H : B → Nat) (hH : ∀ b, H b < 2^64) (T : Ty) (name : B) (v : Val) (base : Nat)
+    (hT : T.wf = true) (hv : T.wt v = true) (hname : validUtf8 name = true) (hlen : name.length < 2^63)
+    (hb : ∀ b ∈ T.blocks v (T.header H name).length, base % b.unit = 0) :
+    ∃ e n, T.deEps H base (T.ser H name v) = .ok (e, n) ∧ T.deFull H (T.ser H name v) = .ok (e.erase, n) := by
+  obtain ⟨e, he, her⟩ := deEps_ser H hH T name v base hT hv hname hlen hb
+  have hf := Ty.deFull_ser_append H hH T name v [] hT hv hname hlen
+  simp only [List.append_nil] at hf
+  exact ⟨e, _, he, by rw [her]; exact hf⟩
+
+/-! Non-vacuity: a buffer at address 0 mod 8 aligns `Vec<u64>` wherever the body starts. -/
+example (pos : Nat) (vs : List Val) (base : Nat) (h : base % 8 = 0) :
+    ∀ b ∈ (Ty.vec (.prim (.int .u64))).blocks (.seq vs) pos, base % b.unit = 0 := by
+  intro b hb
+  simp [Ty.blocks, Ty.blocksSeq, Ty.isZC, Ty.maxSizeOf, Prim.size, IntK.size] at hb
+  subst hb; simpa using h
+
 end Eps.C02
